@@ -7,6 +7,11 @@
 //@ bound: unbounded: every object count (also limited calculators), every position, every n (incl. usize::MAX)
 //@ clause: for ALL N and n: pre: invariant. post: Some iff n < remaining; exactly min(n+1, remaining) values are consumed; the returned value reports n_objects == idx'; the hold-note counter grows by the number of non-circles among the consumed objects other than the first; invariant preserved; indices in bounds; no overflow
 //@ assume: R10 (zip form): A.iter().zip(B.iter().skip(1)).skip(S).take(T) pairs A[k] with B[k+1] for k = S, S+1, ... while both are in range, at most T pairs; R11; local verified cmp::min
+//@ obl: id=U12.mania.perf.verus fn=ManiaGradualPerformance::nth props=C15,C03,C05 tier=quick kind=proof twin=yes pair=U12.mania.perf.n2
+//@ fns: ManiaGradualPerformance::nth, ManiaGradualPerformance::next, ManiaGradualPerformance::last, ManiaGradualPerformance::len
+//@ bound: unbounded; modular: checked against the contract of ManiaGradualDifficulty::nth proved in the same unit, not its body
+//@ clause: for ALL N and n: the gradual performance calculator's nth(state, n) consumes exactly min(n+1, remaining) objects and returns None exactly when nothing remains; next == nth(0); last == nth(usize::MAX) consumes everything; len() == remaining
+//@ assume: the performance builder chain (performance/lazer/state/difficulty/passed_objects/calculate) is declared as external_body functions: calculate() returns Ok (own-mode attributes need no conversion); what the builder receives is obligation U12.mania.perf.* (Kani)
 //@ obl: id=U12.mania.next.verus fn=ManiaGradualDifficulty::next props=C15,C02,C05 tier=quick kind=proof twin=yes pair=U12.mania.protocol.n2
 //@ fns: ManiaGradualDifficulty::next (Iterator::next)
 //@ bound: unbounded: every object count (also calculators created with a passed_objects limit), every position
@@ -61,6 +66,34 @@ fn increment_combo(is_circle: bool, diff_obj: &ManiaDifficultyObject, state: &mu
     requires old(state).n_hold_notes < u32::MAX
     ensures final(state).n_hold_notes == old(state).n_hold_notes + (if is_circle { 0u32 } else { 1u32 })
 { unimplemented!() }
+
+#[verifier::external_body] pub struct ManiaScoreState { _p: () }
+#[verifier::external_body] pub struct ManiaPerformanceAttributes { _p: () }
+#[verifier::external_body] pub struct ManiaPerformance { _p: () }
+#[verifier::external_body] #[derive(Debug)] pub struct ConvertError { _p: () }
+
+impl Clone for Difficulty {
+    #[verifier::external_body]
+    fn clone(&self) -> Self { unimplemented!() }
+}
+impl ManiaDifficultyAttributes {
+    #[verifier::external_body]
+    fn performance(self) -> ManiaPerformance { unimplemented!() }
+}
+impl ManiaPerformance {
+    #[verifier::external_body]
+    fn lazer(self, lazer: bool) -> (r: Self) { unimplemented!() }
+    #[verifier::external_body]
+    fn state(self, state: ManiaScoreState) -> (r: Self) { unimplemented!() }
+    #[verifier::external_body]
+    fn difficulty(self, difficulty: Difficulty) -> (r: Self) { unimplemented!() }
+    #[verifier::external_body]
+    fn passed_objects(self, passed_objects: u32) -> (r: Self) { unimplemented!() }
+    #[verifier::external_body]
+    fn calculate(self) -> (r: Result<ManiaPerformanceAttributes, ConvertError>)
+        ensures r.is_ok()
+    { unimplemented!() }
+}
 
 /*@extract struct file=src/mania/difficulty/gradual.rs name=ManiaGradualDifficulty */
 
@@ -137,6 +170,45 @@ impl ManiaGradualDifficulty {
                 && final(self).note_state.n_hold_notes == old(self).note_state.n_hold_notes
                     + (if old(self).idx > 0 && !old(self).objects_is_circle@[old(self).idx as int] { 1u32 } else { 0u32 }),
             r.is_none() ==> final(self).idx == old(self).idx && final(self).note_state == old(self).note_state,
+*/
+}
+
+/*@extract struct file=src/mania/performance/gradual.rs name=ManiaGradualPerformance */
+
+impl ManiaGradualPerformance {
+/*@extract fn file=src/mania/performance/gradual.rs impl=ManiaGradualPerformance name=nth ret=r
+@spec
+        requires old(self).difficulty.inv()
+        ensures
+            final(self).difficulty.inv(),
+            r.is_some() <==> old(self).difficulty.remaining() > 0,
+            final(self).difficulty.idx == old(self).difficulty.idx
+                + (if n < old(self).difficulty.remaining() { n + 1 } else { old(self).difficulty.remaining() }),
+            final(self).difficulty.remaining() == old(self).difficulty.remaining() - (final(self).difficulty.idx - old(self).difficulty.idx),
+*/
+
+/*@extract fn file=src/mania/performance/gradual.rs impl=ManiaGradualPerformance name=next ret=r
+@spec
+        requires old(self).difficulty.inv()
+        ensures
+            final(self).difficulty.inv(),
+            r.is_some() <==> old(self).difficulty.remaining() > 0,
+            final(self).difficulty.idx == old(self).difficulty.idx + (if old(self).difficulty.remaining() > 0 { 1int } else { 0int }),
+*/
+
+/*@extract fn file=src/mania/performance/gradual.rs impl=ManiaGradualPerformance name=last ret=r
+@spec
+        requires old(self).difficulty.inv()
+        ensures
+            final(self).difficulty.inv(),
+            r.is_some() <==> old(self).difficulty.remaining() > 0,
+            final(self).difficulty.remaining() == 0,
+*/
+
+/*@extract fn file=src/mania/performance/gradual.rs impl=ManiaGradualPerformance name=len ret=r
+@spec
+        requires self.difficulty.inv()
+        ensures r == self.difficulty.remaining()
 */
 }
 
